@@ -116,6 +116,18 @@ def history(tid, rng, steps):
         new(cz.build_circuit(n_e, n_p, 1, prog))
     g = rng.choice([nx.path_graph(3), nx.cycle_graph(4), nx.star_graph(2), nx.complete_graph(3)])
     new(cz.target_state(g, rng.choice(["g", "s", "dm"])))
+    # a second target: the state a photon-only Clifford circuit WITH Pauli gates compiles to (generators with mixed signs),
+    # as many qubits as circuit 1 has photons, so that the metric can be evaluated against it
+    n_t = max(objs["1"].n_photons, 1)
+    tprog = []
+    for _k in range(rng.randint(3, 8)):
+        if n_t >= 2 and rng.random() < 0.3:
+            a, b = rng.sample(range(n_t), 2)
+            tprog.append({"k": "CNOT", "r": [["p", a], ["p", b]], "c": None})
+        else:
+            tprog.append({"k": rng.choice(["Hadamard", "Phase", "SigmaX", "SigmaY", "SigmaZ"]), "r": [["p", rng.randrange(n_t)]], "c": None})
+    tprog.append({"k": rng.choice(["SigmaX", "SigmaY", "SigmaZ"]), "r": [["p", rng.randrange(n_t)]], "c": None})
+    new(StabilizerCompiler().compile(cz.build_circuit(0, n_t, 0, tprog)))
     init = {k: beh(v) for k, v in objs.items()}
     events = []
     for _ in range(steps):
@@ -123,7 +135,7 @@ def history(tid, rng, steps):
         states = [k for k, v in objs.items() if hasattr(v, "rep_type")]
         if len(objs) > 7:
             # forget the oldest non-initial object (dropping a reference is not a library call)
-            gone = list(objs)[3:4]
+            gone = list(objs)[4:5]
             for k in gone:
                 del objs[k]
             events.append({"ev": "forget", "args": gone, "ret": "", "err": "", "forced": False,
@@ -194,13 +206,20 @@ def history(tid, rng, steps):
                         except Exception:
                             pass
                 elif call == "solve":
-                    tk = "3"                       # the graph-state target of this history
+                    tk = rng.choice(["3", "3", "4"])   # the graph-state target of this history, or the signed one
                     e["args"] = [tk]
                     tgt = objs[tk]
                     comp = StabilizerCompiler()
-                    solver = TimeReversedSolver(target=tgt, metric=gm.Infidelity(tgt), compiler=comp)
-                    solver.solve()
-                    e["ret"] = new(solver.result[1])
+                    if tk == "3":
+                        solver = TimeReversedSolver(target=tgt, metric=gm.Infidelity(tgt), compiler=comp)
+                        solver.solve()
+                        e["ret"] = new(solver.result[1])
+                    else:
+                        try:        # what the solver makes of a signed target is C02's business; the frame is ours
+                            solver = TimeReversedSolver(target=tgt, metric=gm.Infidelity(tgt), compiler=comp)
+                            solver.solve()
+                        except Exception:
+                            pass
                 elif call == "compare":
                     k2 = rng.choice(circs)
                     e["args"] = [k, k2]
